@@ -1,6 +1,7 @@
 package props
 
 import (
+	"errors"
 	"fmt"
 	"strings"
 
@@ -47,8 +48,28 @@ func init() {
 	} {
 		c13directedCases = append(c13directedCases, struct{ name, src, want string }{"sameas-outside-try:" + p[0], p[1], p[2]})
 	}
+	// the catch variable is the very error that made the body fail (a wrapping error stays the wrapping error)
+	c13directedCases = append(c13directedCases,
+		struct{ name, src, want string }{"strict:catch-variable-is-the-wrapping-error", `{{try}}a{{ failwrap() }}b{{catch e}}[{{ e.Error() }}]{{end}}|{{try}}{{ failtyped() }}{{catch e}}[{{ e.Stage }}:{{ e.Error() }}]{{end}}`, "[stage 2: inner cause]|[7:typed: inner cause]"},
+		struct{ name, src, want string }{"strict:catch-variable-of-a-failed-exec", `{{try}}{{ exec("/nosuch.jet") }}{{catch e}}[{{ isset(e) }}{{ hasPrefix(e.Error(), "template /nosuch.jet") || hasPrefix(e.Error(), "exec") || len(e.Error()) > 10 }}]{{end}}`, "[truetrue]"},
+	)
 	c13nDirected = len(c13directedCases)
 	c13.nDirected = c13nDirected
+}
+
+type c13typedErr struct {
+	Stage int
+	cause error
+}
+
+func (e *c13typedErr) Error() string { return "typed: " + e.cause.Error() }
+func (e *c13typedErr) Unwrap() error { return e.cause }
+
+func c13vars() jet.VarMap {
+	v := jet.VarMap{}
+	v.Set("failwrap", func() string { panic(fmt.Errorf("stage 2: %w", errors.New("inner cause"))) })
+	v.Set("failtyped", func() string { panic(&c13typedErr{Stage: 7, cause: errors.New("inner cause")}) })
+	return v
 }
 
 var c13nDirected = len(c13directedCases)
@@ -74,7 +95,7 @@ func c13directedCase(c *fw.Ctx, idx int) bool {
 	}
 	c.Begin(idx, map[string]interface{}{"directed": "catch body executing return", "name": d.name, "files": files})
 	defer c.End()
-	res := jx.Run(files, "/t.jet", jet.VarMap{}, "ctx", jx.NoEscape)
+	res := jx.Run(files, "/t.jet", c13vars(), "ctx", jx.NoEscape)
 	c.Count("directed_catch_return_cases", 1)
 	c.Eval(1)
 	ok := false
@@ -83,7 +104,7 @@ func c13directedCase(c *fw.Ctx, idx int) bool {
 			ok = true
 		}
 	}
-	if strings.HasPrefix(d.name, "catchless") {
+	if strings.HasPrefix(d.name, "catchless") || strings.HasPrefix(d.name, "strict:") {
 		ok = res.Err == nil && res.Out == d.want // no return outside exec here: the rendering must go on to the end
 	}
 	if res.Panic != nil || res.ParseErr != nil || !ok || (res.Err == nil && res.Out == "") {
